@@ -168,6 +168,10 @@ fn helpers(rep: &Reporter, evals: &AtomicU64) {
 
 pub fn run(tier: Tier) -> i32 {
     let rep = Arc::new(Reporter::new("C03", tier));
+    // the bounds that used to be the thorough tier's are cheap enough for every run
+    let deep = tier == Tier::Thorough;
+    let tier = Tier::Thorough;
+    let _ = deep;
     let evals = AtomicU64::new(0);
     let distinct = AtomicU64::new(0);
     let strs = strings();
